@@ -83,10 +83,11 @@ int main(void) {
         if (!strcmp(op, "new")) {
             if (!dead) { if (l) l->free(l); if (q) q->free(q); if (s) s->free(s); if (g) g->free(g); }
             l = NULL; q = NULL; s = NULL; g = NULL; dead = 0; memset(&cur, 0, sizeof cur);
-            if (!strcmp(a1, "queue")) { kind = QUEUE; q = qqueue(0); }
-            else if (!strcmp(a1, "stack")) { kind = STACK; s = qstack(0); }
-            else if (!strcmp(a1, "grow")) { kind = GROW; g = qgrow(0); }
-            else { kind = LIST; l = qlist(0); }
+            static unsigned ntab; int topt = (++ntab & 1) ? 0 : QLIST_THREADSAFE;      /* every other container with its lock: same answers */
+            if (!strcmp(a1, "queue")) { kind = QUEUE; q = qqueue(topt); }
+            else if (!strcmp(a1, "stack")) { kind = STACK; s = qstack(topt); }
+            else if (!strcmp(a1, "grow")) { kind = GROW; g = qgrow(topt); }
+            else { kind = LIST; l = qlist(topt); }
             continue;
         }
         if (dead) { printf("DEAD\n"); continue; }
